@@ -132,7 +132,7 @@ Print Assumptions C05_order_irrelevant_defperm.
 Theorem C05_view_before_policy_protected : forall s pre o post truthy d p,
   let batch := pre ++ SView o :: post ++ [SPolicy truthy false] in
   o_exc_only o = false -> o_perm o = Some p -> is_npr p = false ->
-  derive1 (cs_rs (commit s batch)) view_classifier false o (Plain (o_behave o)) = Some d ->
+  derive1 (cs_rs (commit s batch)) view_classifier false (viewdefaults o) (Plain (o_behave o)) = Some d ->
   In (r_tag (d_reg d), d) (cs_D (commit s batch)) /\ d_perm d = Some p.
 Proof. exact view_before_policy_protected. Qed.
 Print Assumptions C05_view_before_policy_protected.
